@@ -325,3 +325,10 @@ func arrLenOf(t types.Type) (int64, bool) {
 	}
 	return 0, false
 }
+
+func isErrorType(t types.Type) bool {
+	if t == nil {
+		return false
+	}
+	return types.Identical(t, types.Universe.Lookup("error").Type())
+}
